@@ -57,12 +57,42 @@ def online_test(test):
     return 0
 
 
+NORETURN: set[str] = set()  # package functions that never return normally
+
+
+def _exit_call(st):
+    return isinstance(st, ast.Expr) and isinstance(st.value, ast.Call) and (
+        dotted(st.value.func) in ("sys.exit", "exit", "quit", "os._exit")
+        or (dotted(st.value.func) or "").split(".")[-1] in NORETURN)
+
+
 def terminates(stmts):
-    return bool(stmts) and isinstance(
-        stmts[-1], (ast.Return, ast.Raise, ast.Continue, ast.Break)) or (
-        bool(stmts) and isinstance(stmts[-1], ast.Expr)
-        and isinstance(stmts[-1].value, ast.Call)
-        and dotted(stmts[-1].value.func) in ("sys.exit", "exit", "quit"))
+    return bool(stmts) and (isinstance(
+        stmts[-1], (ast.Return, ast.Raise, ast.Continue, ast.Break))
+        or _exit_call(stmts[-1]))
+
+
+def never_returns(stmts):
+    """every path ends in raise / process exit (no return, no fall-through)"""
+    if not stmts:
+        return False
+    last = stmts[-1]
+    if isinstance(last, ast.Raise) or _exit_call(last):
+        return True
+    if isinstance(last, ast.If) and last.orelse:
+        return never_returns(last.body) and never_returns(last.orelse)
+    return False
+
+
+def find_noreturn(mods):
+    NORETURN.clear()
+    for _ in range(3):
+        for mod in mods:
+            for fn in mod.functions.values():
+                if fn.name not in NORETURN and never_returns(fn.body) \
+                        and not any(isinstance(n, ast.Return)
+                                    for n in ast.walk(fn)):
+                    NORETURN.add(fn.name)
 
 
 def online_at(node) -> int:
@@ -288,6 +318,7 @@ def check(chk, repo, tier):
     pkg = [m for m in repo.package_modules() if not m.endswith(".dictionary")]
 
     all_mods = [repo.mod(m) for m in pkg]
+    find_noreturn(all_mods)
     # ---- (E) dynamic evaluation sites in python code ---------------------------
     n_sites = 0
     for modname in pkg:
@@ -468,12 +499,10 @@ def check(chk, repo, tier):
     # vy_print routes online output to the record
     vp = repo.mod("elements").function("vy_print")
     routed = False
-    for n in ast.walk(vp):
-        if isinstance(n, ast.If) and online_test(n.test) == 1:
-            for m in ast.walk(ast.Module(body=n.body, type_ignores=[])):
-                if isinstance(m, ast.AugAssign) and "online_output" in \
-                        ast.unparse(m.target):
-                    routed = True
+    for m in ast.walk(vp):
+        if isinstance(m, ast.AugAssign) and "online_output" in \
+                ast.unparse(m.target) and online_at(m) == 1:
+            routed = True
     chk.ob("C19.print-routing", "elements.vy_print/online arm", routed,
            "vy_print's online arm no longer appends to ctx.online_output",
            repo.mod("elements").rel, vp.lineno, sample="online_output[1] +=")
